@@ -174,3 +174,24 @@ def unjson(x):
     if isinstance(x, list):
         return [unjson(v) for v in x]
     return x
+
+
+def private_xdg(tag=""):
+    """Give this process its own XDG data/config/cache/HOME directories (under the run's temp root) and make
+    ofxtools.config see them: the environment is set and, if ofxtools.config was already imported, it is re-imported
+    (importlib.reload) so that its module-level directories are recomputed.  Idempotent per process."""
+    import importlib
+    import sys
+
+    root = os.environ.get("VF_TMPROOT") or "/tmp"
+    mine = os.path.join(root, f"p{os.getpid()}{tag}")
+    if os.environ.get("VF_PRIVATE_XDG") == mine:
+        return mine
+    for var, sub in (("XDG_DATA_HOME", "data"), ("XDG_CONFIG_HOME", "config"), ("XDG_CACHE_HOME", "cache"), ("HOME", "home")):
+        p = os.path.join(mine, sub)
+        os.makedirs(p, exist_ok=True)
+        os.environ[var] = p
+    os.environ["VF_PRIVATE_XDG"] = mine
+    if "ofxtools.config" in sys.modules:
+        importlib.reload(sys.modules["ofxtools.config"])
+    return mine
